@@ -1,6 +1,7 @@
 import O4.Model.Obfs2
 import O4.Lemmas.Obfs2
 import O4.Lemmas.CtrLaw
+import O4.Generated.Facts.Obfs2
 /-!
 # C14 — obfs2: stream integrity and spec conformance
 
@@ -12,6 +13,7 @@ seed, padding, write sequence and every segmentation of the byte stream.
 * `keys_agree`            initiator tx = responder rx and vice versa, as functions of the two seeds
 * `stream_roundtrip`      any write sequence, any re-segmentation, any read sizes: delivered = written
 * `stream_roundtrip_both` … in both directions after `kdf`
+* `tail_with_error_delivered` a final chunk handed out together with an error is decrypted and delivered
 * `rejects_bad_magic`, `rejects_big_padlen`, `accepts_iff`   the header decision
 * `handshake_any_chunking` a well-formed peer handshake completes for every segmentation, consuming
                            exactly `seedLen + hsLen + padLen` bytes and leaving the rest queued
@@ -38,6 +40,30 @@ theorem spec_constants :
     initiatorKdfString = "Initiator obfuscated data" ∧
     responderKdfString = "Responder obfuscated data" :=
   ⟨rfl, rfl, rfl, rfl, rfl, rfl, rfl, rfl, rfl⟩
+
+/-! ### structural facts of the Go source the model rests on (go/ast, regenerated per run) -/
+
+/-- The model treats every MAC / cipher as a pure function of its inputs and every connection as
+owning its primitives; `Read`/`Write` as `cipher.StreamReader.Read` / `StreamWriter.Write` (which
+decrypt and return the n bytes a conn hands out together with an error); the handshake reads as
+`io.ReadFull` (never over-reading). In the source: `mac` makes a fresh `sha256.New()` per call (no
+digest shared between connections/goroutines), `handshake` and `kdf` make fresh `aes.NewCipher` /
+`cipher.NewCTR`, `handshake` reads with `io.ReadFull` only, `Read`/`Write` call only `rx.Read` /
+`tx.Write`. A refactor that shares hash state, bypasses the stream reader or over-reads stops this
+theorem from checking even when no test input exposes it. -/
+theorem structure_facts :
+    "sha256.New" ∈ O4.Facts.Obfs2.func_mac_calls ∧
+    "mac" ∈ O4.Facts.Obfs2.func_hsKdf_calls ∧
+    "aes.NewCipher" ∈ O4.Facts.Obfs2.obfs2Conn_handshake_calls ∧
+    "cipher.NewCTR" ∈ O4.Facts.Obfs2.obfs2Conn_handshake_calls ∧
+    "aes.NewCipher" ∈ O4.Facts.Obfs2.obfs2Conn_kdf_calls ∧
+    "cipher.NewCTR" ∈ O4.Facts.Obfs2.obfs2Conn_kdf_calls ∧
+    "io.ReadFull" ∈ O4.Facts.Obfs2.obfs2Conn_handshake_calls ∧
+    "io.ReadAtLeast" ∉ O4.Facts.Obfs2.obfs2Conn_handshake_calls ∧
+    "Conn.Read" ∉ O4.Facts.Obfs2.obfs2Conn_handshake_calls ∧
+    O4.Facts.Obfs2.obfs2Conn_Read_calls = ["rx.Read"] ∧
+    O4.Facts.Obfs2.obfs2Conn_Write_calls = ["tx.Write"] := by
+  decide
 
 /-! ### the executable instantiation meets the hypotheses used below -/
 
@@ -98,6 +124,27 @@ theorem stream_roundtrip (P : Prims) (ks) (hL : P.sxor.Law ks) (a b : Conn) (hk 
   simp only [List.flatten_nil, xorAt, List.append_nil] at r1
   refine ⟨r1.symm, ?_⟩
   rw [w2, r2, hk, ← r1]
+
+/-- **End of stream: bytes returned together with an error are delivered.** The wire reaches `b`
+as `q` followed by a final chunk `last` that the underlying conn hands out *in the same call as an
+error* (`n > 0, err ≠ nil`, e.g. the last segment with `io.EOF`). After any `Read`s that drained
+`q`, the `Read` that meets `last` returns its decryption along with the error: everything the peer
+wrote has been delivered when the error is reported. -/
+theorem tail_with_error_delivered (P : Prims) (ks) (hL : P.sxor.Law ks) (a b : Conn) (hk : a.tx = b.rx)
+    (ws : List Bytes) (q : Net) (last : Bytes) (hq : q.flatten ++ last = (writeAll P a ws).2.flatten)
+    (outs : List Bytes) (b' : Conn) (hr : Reads P b q outs b' []) :
+    outs.flatten ++ (readLast P b' last).2 = ws.flatten := by
+  obtain ⟨w1, _⟩ := writeAll_spec P hL a ws
+  obtain ⟨r1, r2⟩ := reads_spec P hL hr
+  simp only [List.flatten_nil, xorAt, List.append_nil] at r1
+  have hlen : outs.flatten.length = q.flatten.length := by rw [← r1, xorAt_length]
+  have h3 : (readLast P b' last).2 = xorAt (ks b.rx.key b.rx.iv) (b.rx.off + q.flatten.length) last := by
+    simp only [readLast, Stream.xor]
+    rw [hL, r2]
+    simp [hlen]
+  have h4 : ws.flatten = xorAt (ks b.rx.key b.rx.iv) b.rx.off (q.flatten ++ last) := by
+    rw [hq, w1, hk, xorAt_xorAt]
+  rw [h4, xorAt_append, h3, r1]
 
 /-- the wire carries exactly as many bytes as were written (no framing, no expansion) -/
 theorem wire_length (P : Prims) (ks) (hL : P.sxor.Law ks) (a : Conn) (ws : List Bytes) :
